@@ -261,6 +261,7 @@ pub fn verif_root() -> PathBuf {
 thread_local! {
     static LAST_PANIC: std::cell::RefCell<Option<PanicInfo>> = const { std::cell::RefCell::new(None) };
     static QUIET: std::cell::Cell<bool> = const { std::cell::Cell::new(false) };
+    static CURRENT_CASE: std::cell::Cell<Option<u64>> = const { std::cell::Cell::new(None) };
 }
 
 #[derive(Clone, Debug)]
@@ -393,6 +394,8 @@ pub struct Check {
     max_samples: usize,
     /// a run must see at least this many distinct non-trivial cases, else it is inconclusive
     pub min_nontrivial: u64,
+    /// `--case N` / `--replay`: run only this PRNG case
+    pub only_case: Option<u64>,
 }
 
 pub const EXIT_OK: i32 = 0;
@@ -423,7 +426,8 @@ impl Check {
                 assumptions: vec![],
             }),
             max_samples: 5,
-            min_nontrivial: 2,
+            min_nontrivial: if args.extra.contains_key("case") { 0 } else { 2 },
+            only_case: args.extra.get("case").and_then(|s| s.parse().ok()),
         }
     }
     fn lock(&self) -> std::sync::MutexGuard<'_, Inner> {
@@ -470,6 +474,13 @@ impl Check {
         }
     }
     pub fn violation(&self, signature: impl Into<String>, what: impl Into<String>, witness: Value) {
+        // remember which PRNG case produced it (for --replay)
+        let mut witness = witness;
+        if let (Some(c), Some(o)) = (CURRENT_CASE.with(|c| c.get()), witness.as_object_mut())
+            && !o.contains_key("case")
+        {
+            o.insert("case".into(), json!(c));
+        }
         let mut g = self.lock();
         g.violation_count += 1;
         let signature = signature.into();
@@ -567,7 +578,9 @@ impl Check {
         let evdir = root.join("evidence");
         let _ = std::fs::create_dir_all(&evdir);
         let evpath = evdir.join(format!("{}.json", self.id));
-        if let Err(e) = std::fs::write(&evpath, serde_json::to_string_pretty(&ev).unwrap() + "\n") {
+        if self.only_case.is_some() {
+            // single-case replay: do not overwrite the evidence of the last full run
+        } else if let Err(e) = std::fs::write(&evpath, serde_json::to_string_pretty(&ev).unwrap() + "\n") {
             eprintln!("cannot write evidence {}: {e}", evpath.display());
         }
         for (v, k) in &known_hits {
@@ -631,6 +644,10 @@ where
                     if i >= n {
                         break;
                     }
+                    if check.only_case.is_some() && check.only_case != Some(i) {
+                        continue;
+                    }
+                    CURRENT_CASE.with(|c| c.set(Some(i)));
                     let mut rng = Rng::for_case(check.seed, i);
                     if let Err(p) = catch(|| f(i, &mut rng)) {
                         check.inconclusive(format!("harness panic in case {i}: {} at {}", p.msg, p.location));
@@ -660,6 +677,10 @@ where
                     if i >= max {
                         break;
                     }
+                    if check.only_case.is_some() && check.only_case != Some(i) {
+                        continue;
+                    }
+                    CURRENT_CASE.with(|c| c.set(Some(i)));
                     let mut rng = Rng::for_case(check.seed, i);
                     if let Err(p) = catch(|| f(i, &mut rng)) {
                         check.inconclusive(format!("harness panic in case {i}: {} at {}", p.msg, p.location));
@@ -672,7 +693,34 @@ where
 
 /// Standard main: dispatch `id` to a check function, write evidence, exit.
 pub fn run_main(checks: &[(&str, fn(&Args) -> i32)]) -> ! {
-    let args = Args::parse();
+    let mut args = Args::parse();
+    // --replay <violation file>: show the stored witness and, when it names the PRNG case that produced it,
+    // re-run exactly that case (same seed, same tier) so the violation is reproduced against the current tree.
+    if let Some(path) = args.replay.clone() {
+        match std::fs::read_to_string(&path).ok().and_then(|s| serde_json::from_str::<Value>(&s).ok()) {
+            Some(v) => {
+                println!("REPLAY {}: property={} signature={}", path.display(), v["property"], v["signature"]);
+                println!("  what: {}", v["what"]);
+                if let Some(seed) = v["seed"].as_u64() {
+                    args.seed = seed;
+                }
+                if v["tier"].as_str() == Some("thorough") {
+                    args.tier = Tier::Thorough;
+                }
+                match v["witness"]["case"].as_u64() {
+                    Some(c) => {
+                        println!("  re-running case {c} of seed {} ({})", args.seed, args.tier.name());
+                        args.extra.insert("case".into(), c.to_string());
+                    }
+                    None => println!("  witness is self-contained (no PRNG case index); re-running the whole check at seed {}", args.seed),
+                }
+            }
+            None => {
+                eprintln!("cannot read replay file {}", path.display());
+                std::process::exit(2);
+            }
+        }
+    }
     for (id, f) in checks {
         if *id == args.id {
             let code = f(&args);
